@@ -12,10 +12,10 @@ MODEL_EXE = os.path.join(LEAN, ".lake", "build", "bin", "mtbl_model")
 NCPU = os.cpu_count() or 4
 
 LIB_DIRECT = ["libmy/crc32c.c", "libmy/crc32c-slicing.c", "libmy/crc32c-sse42.c", "libmy/heap.c",
-              "libmy/my_fileset.c", "mtbl/compression.c", "mtbl/crc32c_wrap.c", "mtbl/fixed.c",
+              "libmy/my_fileset.c", "mtbl/crc32c_wrap.c", "mtbl/fixed.c",
               "mtbl/iter.c", "mtbl/merger.c", "mtbl/metadata.c", "mtbl/source.c", "mtbl/varint.c"]
 LIB_TU = ["tu/tu_writer.c", "tu/tu_block.c", "tu/tu_block_builder.c", "tu/tu_reader.c",
-          "tu/tu_sorter.c", "tu/tu_fileset.c"]
+          "tu/tu_sorter.c", "tu/tu_fileset.c", "tu/tu_compression.c"]
 LIBS = ["-lz", "-lsnappy", "-llz4", "-lzstd", "-lpthread", "-ldl"]
 
 
@@ -271,6 +271,11 @@ def run_script(exe, lines, model_pre=(), tmpdir=None, real_env=None):
                 continue
             bind = None
             toks = raw.split(" ")
+            if toks[0].startswith("?"):
+                # conditional line: run only if the named variable is bound to something other than "-"
+                if var.get(toks[0][1:], "-") == "-":
+                    continue
+                toks = toks[1:]
             if toks[0].startswith("@"):
                 bind = toks[0][1:]; toks = toks[1:]
             toks = [subst(t, var) for t in toks]
@@ -286,6 +291,8 @@ def run_script(exe, lines, model_pre=(), tmpdir=None, real_env=None):
             r_reply, side = real.ask(req)
             if toks[0] in REAL_ONLY:
                 if bind is not None:
+                    parts = r_reply.split(" ")
+                    var[bind] = parts[1] if len(parts) > 1 else "-"
                     for part in r_reply.split(" ")[1:]:
                         if "=" in part:
                             var[bind + "." + part.split("=", 1)[0]] = part.split("=", 1)[1]
@@ -295,7 +302,7 @@ def run_script(exe, lines, model_pre=(), tmpdir=None, real_env=None):
                 continue
             # oracle data observed from the library goes to the model first
             for s in side:
-                if s.startswith("#ctab "):
+                if s.startswith("#ctab ") or s.startswith("#lib "):
                     model.ask(s[1:])
             m_reply, _ = model.ask(req)
             if bind is not None:
@@ -313,7 +320,7 @@ def run_script(exe, lines, model_pre=(), tmpdir=None, real_env=None):
     return res
 
 
-REAL_ONLY = {"sys.info", "codec.sweep32", "crc.cpu", "cz.raw", "cz.direct", "cz.libinfo"}
+REAL_ONLY = {"sys.info", "codec.sweep32", "crc.cpu", "cz.raw", "cz.direct", "cz.libinfo", "cz.gen", "cz.big"}
 MODEL_ONLY = {"enc.raw", "enc.legal", "enc.file", "ctab", "cz.plan", "f.validate"}
 
 
